@@ -64,52 +64,64 @@ def chk_access(tree, o):
         real_code = (optree.SequenceEntry, optree.MappingEntry, optree.NamedTupleEntry, optree.StructSequenceEntry,
                      optree.GetAttrEntry, optree.DataclassEntry, S.CustomEEntry)
         for i, (a, leaf) in enumerate(zip(accs, leaves)):
-            try:
-                got = a(tree)
-            except Exception as ex:
-                out.append(('C04.accessor_returns_leaf', f'accessor {i} {a!r} raised {type(ex).__name__}: {ex}'))
-                continue
-            if got is not leaf:
-                out.append(('C04.accessor_returns_leaf', f'accessor {i} {a!r} returned {got!r}, leaf {i} is {leaf!r}'))
             if a.path != paths[i] or type(a.path) is not tuple or len(a) != len(paths[i]):
                 out.append(('C04.accessor_path', f'accessor {i} path {a.path!r} != path {i} {paths[i]!r}'))
             # entry typing, walking down by the reference expansion
-            cur = tree
+            cur, chain, exposed, broken = tree, [tree], True, False
             for depth, e in enumerate(a):
                 exp = ref_expand(cur, o)
                 if exp is None:
                     out.append(('C04.entry_value', f'accessor {i} {a!r}: step {depth} descends into the leaf {cur!r}'))
+                    broken = True
                     break
                 cls, kind = expected_entry(cur, exp[0])
                 if type(e) is not cls:
                     out.append(('C04.entry_class', f'accessor {i} step {depth}: {type(e).__name__} for a parent {cur!r}, expected {cls.__name__}'))
                 if e.type is not type(cur):
                     out.append(('C04.entry_type', f'accessor {i} step {depth}: entry.type {e.type!r} for a parent of type {type(cur)!r}'))
-                if e.kind is not kind:
+                if e.kind != kind or type(e.kind) is not optree.PyTreeKind:
                     out.append(('C04.entry_kind', f'accessor {i} step {depth}: entry.kind {e.kind!r}, expected {kind!r}'))
                 children = [c for en, c in exp[1] if en == e.entry and type(en) is type(e.entry)]
                 if len(children) != 1:
                     out.append(('C04.entry_value', f'accessor {i} step {depth}: entry {e.entry!r} is not a child entry of {cur!r} '
                                 f'(entries {[en for en, _ in exp[1]]!r})'))
+                    broken = True
                     break
                 if exp[0] == 'namedtuple' and e.field != type(cur)._fields[e.entry] or \
                         exp[0] == 'structseq' and e.field != type(cur).__match_args__[e.entry]:
                     out.append(('C04.entry_field_name', f'accessor {i} step {depth}: field {e.field!r} for index {e.entry} of {type(cur)!r}'))
                 if isinstance(e, optree.SequenceEntry) and e.index != e.entry or isinstance(e, optree.MappingEntry) and e.key is not e.entry:
                     out.append(('C04.entry_value', f'accessor {i} step {depth}: index/key property differs from entry {e.entry!r}'))
-                if e(cur) is not children[0]:
-                    out.append(('C04.entry_value', f'accessor {i} step {depth}: entry({cur!r}) is not the child under {e.entry!r}'))
+                if cls is optree.FlattenedEntry and not hasattr(type(cur), '__getitem__'):
+                    exposed = False       # custom node that does not expose its children via its (flat index) entries: out of the quantifier
                 cur = children[0]
-                # a[:k] is the k-step prefix
-                pre = a[:depth + 1]
-                if type(pre) is not optree.PyTreeAccessor or pre(tree) is not cur or a[depth + 1:](cur) is not got:
-                    out.append(('C04.composition', f'accessor {i}: a[:{depth + 1}](tree) / a[{depth + 1}:] do not compose'))
-            # slicing / concatenation laws
+                chain.append(cur)
+            if broken:
+                continue
+            if chain[-1] is not leaf:
+                out.append(('C04.path_entries', f'accessor {i} {a!r}: following its entries by key/index leads to {chain[-1]!r}, leaf {i} is {leaf!r}'))
             n = len(a)
+            if exposed:
+                try:
+                    got = a(tree)
+                except Exception as ex:
+                    out.append(('C04.accessor_returns_leaf', f'accessor {i} {a!r} raised {type(ex).__name__}: {ex}'))
+                    continue
+                if got is not leaf:
+                    out.append(('C04.accessor_returns_leaf', f'accessor {i} {a!r} returned {got!r}, leaf {i} is {leaf!r}'))
+                for depth, e in enumerate(a):
+                    if e(chain[depth]) is not chain[depth + 1]:
+                        out.append(('C04.entry_value', f'accessor {i} step {depth}: entry({chain[depth]!r}) is not the child under {e.entry!r}'))
+                for cut in range(n + 1):     # a[:k] is the k-step prefix; (a[:k] + a[k:])(x) == a[k:](a[:k](x))
+                    left, right = a[:cut], a[cut:]
+                    if left(tree) is not chain[cut] or right(chain[cut]) is not got or (left + right)(tree) is not got:
+                        out.append(('C04.composition', f'accessor {i} {a!r}: a[:{cut}](tree) / a[{cut}:] do not compose access'))
+            # slicing / concatenation laws on the accessor values
             for cut in range(n + 1):
                 left, right = a[:cut], a[cut:]
-                if left + right != a or hash(left + right) != hash(a) or right(left(tree)) is not got or (left + right)(tree) is not got:
-                    out.append(('C04.composition', f'accessor {i} {a!r}: a[:{cut}] + a[{cut}:] does not compose to a'))
+                if type(left) is not optree.PyTreeAccessor or left + right != a or hash(left + right) != hash(a) \
+                        or left.path + right.path != a.path:
+                    out.append(('C04.composition', f'accessor {i} {a!r}: a[:{cut}] + a[{cut}:] != a'))
                 if cut < n and (left + a[cut] != a[:cut + 1] or type(left + a[cut]) is not optree.PyTreeAccessor):
                     out.append(('C04.composition', f'accessor {i} {a!r}: a[:{cut}] + a[{cut}] != a[:{cut + 1}]'))
             if n >= 2 and a[0] + a[1] != a[:2]:
@@ -177,9 +189,8 @@ def run(tier: str, seed: int):
                          f'tree {S.show(d)} [{U.opt_repr(o)}]')
             if S.count_nodes(d) > 1 and 'leaf' in U.kinds_in(d):
                 col.nontrivial((S.show(d), U.opt_repr(o)))
-        if i % 1501 == 13:
-            accs = optree.tree_accessors(tree)
-            col.sample(f'{tree!r}: ' + ', '.join(a.codify('tree') for a in accs))
+        if codified < 6 and i % 397 == 13 and optree.tree_leaves(tree):
+            col.sample(f'{tree!r}: ' + ', '.join(a.codify('tree') for a in optree.tree_accessors(tree)))
             codified += 1
     return col.done(
         rule='non-trivial = tree with at least one internal node and at least one opaque leaf; counted per distinct '
